@@ -453,3 +453,62 @@ def q3b(prog):
     if n < 2:
         raise Broken("fewer cache insertions than confirmed by hand (2)")
     return inst, findings
+
+
+def q5(prog):
+    """libdw's / libdwfl's error indicator (dwarf_errno, dwfl_errno) is process-thread state that is reset only by reading it; calls
+    that succeed leave it alone.  Reading it to REPORT a failure that the failing call's own return value has already established is
+    fine (throw_libdw).  Using its value to DECIDE whether something failed makes the outcome depend on what was evaluated earlier,
+    unless the indicator was cleared first: in every library function, each read of the indicator whose value reaches a condition must
+    be preceded, on every CFG path from the function's entry, by a read whose value is discarded (the reset)."""
+    from cfg import CFG
+    inst, findings = [], []
+    IND = ("dwarf_errno", "dwfl_errno")
+    n_read = 0
+    for f in sorted(prog.funcs.values(), key=lambda f: f["fid"]):
+        if not in_lib(prog, f) or f.get("body") is None:
+            continue
+        reads = [c for c in walk_nolambda(f["body"]) if c.get("k") == "call" and c.get("fn") in IND]
+        if not reads:
+            continue
+        n_read += len(reads)
+        g = CFG(f)
+
+        def node_reads(n):
+            return [c for c in walk_nolambda(n.ast) if c.get("k") == "call" and c.get("fn") in IND] if isinstance(n.ast, dict) else []
+        deciding, resets = [], set()
+        for n in g.nodes:
+            rs = node_reads(n)
+            if not rs:
+                continue
+            a = n.ast
+            # a bare call statement discards the value: the reset
+            if n.kind == "stmt" and a.get("k") == "call" and a.get("fn") in IND:
+                resets.add(n.id)
+                continue
+            # the value is tested: the node is a condition, or a declaration that serves as one (`if (int e = dwarf_errno ())`)
+            is_cond = n.kind in ("cond", "switch")
+            if n.kind == "stmt" and a.get("k") == "decl":
+                ids = {v["id"] for v in a.get("vars", [])}
+                for m in g.nodes:
+                    if m.kind in ("cond", "switch") and isinstance(m.ast, dict) and any(y.get("k") == "ref" and y.get("id") in ids for y in walk_nolambda(m.ast)):
+                        is_cond = True
+                # `if (T x = init)` is modelled as decl + implicit test of x
+                for x in walk_nolambda(f["body"]):
+                    if x.get("k") in ("if", "while") and isinstance(x.get("var"), dict) and x["var"].get("id") in ids:
+                        is_cond = True
+            if is_cond:
+                deciding.append(n)
+        for n in deciding:
+            key = "Q5:%s@%s" % (f["q"], (n.loc or "").split(":")[-1])
+            reach = g.reachable(avoid=lambda m: m.id in resets)
+            unguarded = n.id in reach
+            inst.append((key, {"reset_on_every_path": not unguarded}))
+            if unguarded:
+                findings.append({"key": "Q5:" + f["q"], "where": "libzwerg/" + str(n.loc or f["l"]),
+                                 "msg": "%s decides on the value of libdw's sticky error indicator without clearing it first: a call that succeeded earlier (in this or any earlier "
+                                        "evaluation on the thread) may have left it set, so the same operation succeeds or fails depending on history" % f["q"], "detail": None})
+    inst.append(("Q5:reads", {"reads_of_the_indicator": n_read}))
+    if n_read < 2:
+        raise Broken("fewer reads of libdw's error indicator than confirmed by hand (3)")
+    return inst, findings
